@@ -155,7 +155,7 @@ func ItemCollectionDeduplication(recCols ...*ItemCollection) ItemCollection {
 		toRemove := make([]int, 0)
 		for i, cur := range *recCol {
 			save := true
-			if cur == nil {
+			if IsNil(cur) {
 				continue
 			}
 			var testIt IRI
@@ -296,6 +296,9 @@ func (i ItemCollection) Recipients() ItemCollection {
 	all := make(ItemCollection, 0)
 	for _, it := range i {
 		_ = OnObject(it, func(ob *Object) error {
+			if ob == nil {
+				return nil
+			}
 			aud := ob.Audience
 			_ = all.Append(ItemCollectionDeduplication(&ob.To, &ob.CC, &ob.Bto, &ob.BCC, &aud)...)
 			return nil
